@@ -6,8 +6,9 @@
    Counter.update / Counter.set (counter.go) write the value and call the subscribers only when the value changes, all
    under the counter's valueMutex, i.e. a change of a pool counter runs the whole chain pool -> group -> parent group ...
    while it holds the locks of the counters below (locks taken child -> parent along one tree path and released when
-   the chain returns: strict two-phase locking).  This file models each such chain as ONE atomic operation (`notify`);
-   Coq file GroupConc.v (if present) refines that.
+   the chain returns: strict two-phase locking, lock order = tree order, so concurrent chains are serialisable and a
+   reader - Get / WaitIsZero take one lock - sees the value of some serial state).  This file models each such chain as
+   ONE atomic operation (`notify`); the serialisability argument itself is not mechanised (modelled-not-verified).
 
    A forest is the list of all counters ever created (pools and groups) in creation order; a node points to the counter
    its subscription feeds (`nparent`, always an older node).  The name maps (pools/groups OrderedMap) only serve look-ups:
